@@ -152,6 +152,7 @@ pub fn judge_c04(bytes: &[u8]) -> Value {
             op!(panics, n, "signature_key_ids", pkg.signature_key_ids());
             let uncompressed = matches!(guard(|| pkg.metadata.get_payload_compressor()), Ok(Ok(rpm::CompressionType::None)));
             if uncompressed {
+                // a consumer that stops at the first error ...
                 op!(panics, n, "files", {
                     if let Ok(it) = pkg.files() {
                         let mut k = 0usize;
@@ -163,6 +164,27 @@ pub fn judge_c04(bytes: &[u8]) -> Value {
                         }
                     }
                 });
+                // ... and one that keeps pulling (`.count()`, `filter_map(Result::ok)`): the iterator
+                // must come to an end; an archive of n bytes cannot hold more than n / 14 entries
+                let limit = bytes.len() / 8 + 64;
+                let pulled = guard(|| {
+                    let mut k = 0usize;
+                    if let Ok(it) = pkg.files() {
+                        for _ in it {
+                            k += 1;
+                            if k > limit {
+                                break;
+                            }
+                        }
+                    }
+                    k
+                });
+                n += 1;
+                match pulled {
+                    Ok(k) if k > limit => panics.push(json!({"op": "files(keep-pulling)", "message": "the file iterator keeps yielding items after the archive is exhausted", "file": "src/rpm/package.rs", "line": 0, "frame": "FileIterator::next:does-not-terminate"})),
+                    Ok(_) => {}
+                    Err(p) => panics.push(json!({"op": "files(keep-pulling)", "message": p.message, "file": p.file, "line": p.line, "frame": p.rpm_frame})),
+                }
             }
             ops += n;
         }
